@@ -2,7 +2,6 @@ package main
 
 import (
 	"bytes"
-	"fmt"
 	"io"
 )
 
@@ -12,11 +11,11 @@ type KeyValue struct {
 }
 
 func (kv KeyValue) Write(writer io.Writer) (int, error) {
-	n, err := fmt.Fprintf(writer, kv.Key)
+	n, err := io.WriteString(writer, kv.Key)
 	if len(kv.Value) > 0 {
-		m, _ := fmt.Fprintf(writer, "=")
+		m, _ := io.WriteString(writer, "=")
 		n += m
-		m, err = fmt.Fprintf(writer, kv.Value)
+		m, err = io.WriteString(writer, kv.Value)
 		n += m
 	}
 	return n, err
